@@ -61,6 +61,8 @@ pub struct RefRun {
     pub value: Result<V, &'static str>,
     pub log: Vec<HostEv>,
     pub steps: u64,
+    /// undefined combinations the reference offered to the host
+    pub defers: u64,
 }
 
 /// reference evaluation; expression values are renamed to the ordinal of their `{` in the text
@@ -76,20 +78,21 @@ pub fn reference_h(e: &E, input: &V, resolves: &HashMap<u64, V>, apply_accept: b
         nested_in_print_order(e, &mut v);
         v
     };
-    let (value, steps, tainted) = {
+    let (value, steps, tainted, defers) = {
         let mut ev = Ev::new(&mut host, max_steps);
         let r = ev.program(e, input.clone());
         let exprs = ev.exprs.clone();
         let steps = ev.steps;
         let tainted = ev.tainted;
+        let defers = ev.defers;
         let v = match r {
             Ok(v) => Ok(map_expr(&v, &|id| exprs.get(id).and_then(|p| order.iter().position(|q| std::ptr::eq(*q, *p))))),
             Err(Stop::Budget) => Err("budget"),
             Err(Stop::Restart(_)) => Err("restart-escaped"),
         };
-        (v, steps, tainted)
+        (v, steps, tainted, defers)
     };
-    RefRun { tainted, value, log: host.log, steps }
+    RefRun { tainted, value, log: host.log, steps, defers }
 }
 
 pub struct RealRun<D: Store + Mk> {
